@@ -21,6 +21,7 @@ import shutil
 import subprocess
 import vcommon as V
 from gen import verdictgen as G
+from gen import verdictplant as P
 
 FALCO = os.path.join(V.BUILD, "falco")
 WORK = os.path.join(V.BUILD, "c04")
@@ -38,15 +39,23 @@ def parse_level(word):
     return {"ERROR": "E", "WARNING": "W", "INFO": "I", "IGNORE": "G"}.get(word.upper())
 
 
-def write_case(idx, main, mods):
+def write_case(idx, case):
     d = os.path.join(WORK, "p%d" % idx)
-    os.makedirs(os.path.join(d, "inc"), exist_ok=True)
+    os.makedirs(d, exist_ok=True)
     with open(os.path.join(d, "main.vcl"), "w") as f:
-        f.write(main)
-    for name, text in mods.items():
-        with open(os.path.join(d, "inc", name + ".vcl"), "w") as f:
+        f.write(case.main)
+    for name, text in case.local.items():
+        with open(os.path.join(d, name + ".vcl"), "w") as f:
             f.write(text)
-    return d
+    incs = []
+    for k, mods in enumerate(case.dirs):
+        inc = os.path.join(d, "inc%d" % k)
+        os.makedirs(inc, exist_ok=True)
+        incs.append(inc)
+        for name, text in mods.items():
+            with open(os.path.join(inc, name + ".vcl"), "w") as f:
+                f.write(text)
+    return d, incs
 
 
 def write_overrides(d, j, ov):
@@ -64,7 +73,7 @@ def write_overrides(d, j, ov):
 
 
 def run_falco(job):
-    cwd, d, jflag, v = job
+    cwd, d, incs, jflag, v = job
     args = [FALCO, "lint"]
     if jflag:
         args.append("-json")
@@ -72,7 +81,9 @@ def run_falco(job):
         args.append("-v")
     elif v == 2:
         args.append("-vv")
-    args += ["-I", os.path.join(d, "inc"), os.path.join(d, "main.vcl")]
+    for inc in incs:
+        args += ["-I", inc]
+    args.append(os.path.join(d, "main.vcl"))
     env = {k: val for k, val in os.environ.items() if k not in ("CI", "FASTLY_SERVICE_ID", "FASTLY_API_KEY")}
     try:
         p = subprocess.run(args, cwd=cwd, env=env, stdout=subprocess.PIPE, stderr=subprocess.PIPE, timeout=30)
@@ -125,6 +136,27 @@ def override_sets(rng, diags):
     return sets + cands[:2]
 
 
+def legacy_case(label, main, mods):
+    c = P.Case(label)
+    c.main, c.dirs, c.planted = main, [dict(mods)], False
+    return c
+
+
+def spec_verdict(pm, pi, diags, ov):
+    """the property, stated directly: (exit, summary) from the syntax-error flags, the diagnostics
+    (rule, intrinsic severity) that survive the ignore comments, and the override table of .falco.yml"""
+    if pm or pi:
+        return 1, "none"
+    ovm = {}
+    for k, w in ov:
+        lv = parse_level(w)
+        if lv:
+            ovm[k] = lv
+    eff = [ovm.get(r, s) for r, s in diags]
+    e, w, i = eff.count("E"), eff.count("W"), eff.count("I")
+    return (1 if e else 0), "%d,%d,%d" % (e, w, i)
+
+
 def run(ctx):
     rng = ctx.rng
     thorough = ctx.thorough()
@@ -135,9 +167,11 @@ def run(ctx):
         "Coq 8.16.1 kernel (coqc); axioms: none expected (Print Assumptions of Props/C04.v)",
         "extraction: ExtrOcamlBasic only; OCaml 4.13.1; ocaml/common.ml + ocaml/verdict_main.ml",
         "harness/cmd/implrun lintapi.go (lintapi: the lint_input of a program obtained the way (*Runner).run obtains it: "
-        "ParseVCLOrSnippet, linter.New(conf).Lint with a file resolver, FatalError, l.Errors)",
+        "ParseVCLOrSnippet, linter.New(conf).Lint with a file resolver, FatalError, l.Errors); c04_parse.go (parsefile)",
         "checks/c04.py: parsing of the process output (summary line regex, [ERROR]/[WARNING]/[INFO] markers, JSON document), "
         "generation of .falco.yml",
+        "gen/verdictplant.py: the table statement -> (rule, intrinsic severity) of the planted programs (a fixed fact of the "
+        "generator; l.Errors is audited against it), the planted ignore comments (semantics of property C12), the include graphs",
         "modelled not verified: Model/Verdict.v is a hand transcription of cmd/falco/runner.go (NewRunner overrides / verbosity, Run, run, "
         "printLinterError) and cmd/falco/main.go (runLint, exit status), tied by the differential run against the real process; "
         "config parsing (twist), the resolver and the linter are exercised, not modelled",
@@ -146,25 +180,29 @@ def run(ctx):
     os.makedirs(WORK, exist_ok=True)
 
     # ---------------- programs
-    cases = [(label, main, mods) for label, main, mods in G.SEEDS]
+    cases = [legacy_case(label, main, mods) for label, main, mods in G.SEEDS]
     corpus_dir = os.path.join(V.VERIF, "corpus", "C04")
     if os.path.isdir(corpus_dir):
         for fn in sorted(os.listdir(corpus_dir)):
             if fn.endswith(".vcl"):
-                cases.insert(0, ("corpus/" + fn, open(os.path.join(corpus_dir, fn)).read(), {}))
-    n_gen = 2500 if thorough else 40
+                cases.insert(0, legacy_case("corpus/" + fn, open(os.path.join(corpus_dir, fn)).read(), {}))
+    n_gen = 1200 if thorough else 22
+    n_plant = 1800 if thorough else 26
     for i in range(n_gen):
-        cases.append(G.random_case(rng, i))
-    dirs = [write_case(i, main, mods) for i, (_, main, mods) in enumerate(cases)]
+        cases.append(legacy_case(*G.random_case(rng, i)))
+    cases += P.planted_seeds()
+    for i in range(n_plant):
+        cases.append(P.planted_case(rng, i))
+    placed = [write_case(i, c) for i, c in enumerate(cases)]
     api = V.run_batch([os.path.join(V.BUILD, "implrun"), "lintapi"],
-                      ["%s %s" % (os.path.join(d, "main.vcl"), os.path.join(d, "inc")) for d in dirs], hang_s=20)
+                      [" ".join([os.path.join(d, "main.vcl")] + incs) for d, incs in placed], hang_s=20)
     viol = []
     inputs = []
     classes = {}
-    for (label, main, mods), d, rep in zip(cases, dirs, api):
+    for c, rep in zip(cases, api):
         if rep is None or not rep.startswith("in "):
-            viol.append((len(main), "the Go API failed on a generated program (%s): %s" % (label, rep),
-                         {"label": label, "main": main, "modules": mods, "reply": rep}, None))
+            viol.append((len(c.main), "the Go API failed on a generated program (%s): %s" % (c.label, rep),
+                         {"label": c.label, "main": c.main, "modules": c.mods, "reply": rep}, None))
             inputs.append(None)
             continue
         f = rep.split()
@@ -179,24 +217,47 @@ def run(ctx):
               "warnings-only" if any(s == "W" for _, s in diags) and not any(s == "I" for _, s in diags) else
               "infos-only" if any(s == "I" for _, s in diags) and not any(s == "W" for _, s in diags) else
               "warnings+infos" if diags else "clean")
-        if main.lstrip().startswith(("#", "//")) and "@scope" in main.split("\n")[0]:
+        if c.main.lstrip().startswith(("#", "//")) and "@scope" in c.main.split("\n")[0]:
             cl += "/snippet@scope"
+        if c.planted:
+            cl = "planted:" + cl
         classes[cl] = classes.get(cl, 0) + 1
 
-    # ---------------- independent oracle for "an included file has a syntax error": every module
-    # reachable from main through `include "x";` is parsed on its own (not through the linter)
-    import re as _re
-    allmods = sorted({(n, t) for _, _, mods in cases for n, t in mods.items()})
+    # ---------------- audit of the model's input (independent of the linter)
+    # (a) planted programs: syntax-error flags and surviving diagnostics are known by construction
+    planted_audited = planted_agree = 0
+    tagstat = {}
+    for c, inp in zip(cases, inputs):
+        if not c.planted or inp is None:
+            continue
+        planted_audited += 1
+        for t in c.label.split("/")[1:]:
+            parts = t.split(":")
+            t = parts[0] + (":" + parts[1] if parts[0] in ("stmt-include", "ignore") and len(parts) > 1 else "")
+            tagstat[t] = tagstat.get(t, 0) + 1
+        pm, pi, diags = inp
+        want = (c.pm, (c.pi and not c.pm), sorted(c.diags) if not (c.pm or c.pi) else None)
+        got = (pm, pi, sorted(diags) if not (pm or pi) else None)
+        if want != got:
+            viol.append((len(c.main), "the linter's result differs from what was planted in %s: planted syntax error main=%s included=%s diagnostics %s; "
+                         "linter main=%s included=%s diagnostics %s" % (c.label, c.pm, c.pi, want[2], pm, pi, got[2]),
+                         {"label": c.label, "main": c.main, "local_modules": c.local, "include_dirs": c.dirs,
+                          "planted": {"pm": c.pm, "pi": c.pi, "diags": c.diags}, "linter": {"pm": pm, "pi": pi, "diags": diags}}, None))
+        else:
+            planted_agree += 1
+    # (b) generated programs: every module reachable from main through a root-level include is parsed on its own
+    allmods = sorted({(n, t) for c in cases if not c.planted for n, t in c.mods.items()})
     prep = V.run_batch([os.path.join(V.BUILD, "implrun"), "parsefile"], [t.encode().hex() for _, t in allmods], hang_s=20)
     mod_ok = {k: (r == "ok") for k, r in zip(allmods, prep)}
     inc_indep_checked = 0
-    for (label, main, mods), inp in zip(cases, inputs):
-        if inp is None or inp[0]:
+    for c, inp in zip(cases, inputs):
+        if c.planted or inp is None or inp[0]:
             continue
-        seen_m, todo, broken = set(), [main], False
+        mods = c.mods
+        seen_m, todo, broken = set(), [c.main], False
         while todo:
             txt = todo.pop()
-            for nm in _re.findall(r'^\s*include\s+"([^"]+)"\s*;', txt, _re.M):
+            for nm in re.findall(r'^\s*include\s+"([^"]+)"\s*;', txt, re.M):
                 if nm in mods and nm not in seen_m:
                     seen_m.add(nm)
                     if mod_ok.get((nm, mods[nm])) is False:
@@ -205,25 +266,29 @@ def run(ctx):
                         todo.append(mods[nm])
         inc_indep_checked += 1
         if broken != inp[1]:
-            viol.append((len(main), "an included module %s a syntax error (each reachable module parsed on its own) but the linter reports "
-                         "parse_error_included=%s for %s" % ("has" if broken else "has no", inp[1], label),
-                         {"label": label, "main": main, "modules": mods}, None))
+            viol.append((len(c.main), "an included module %s a syntax error (each reachable module parsed on its own) but the linter reports "
+                         "parse_error_included=%s for %s" % ("has" if broken else "has no", inp[1], c.label),
+                         {"label": c.label, "main": c.main, "modules": mods}, None))
 
     # ---------------- jobs: program x override set x flags
     jobs, meta = [], []
-    for i, ((label, main, mods), d, inp) in enumerate(zip(cases, dirs, inputs)):
+    ovsets = {}
+    for i, (c, (d, incs), inp) in enumerate(zip(cases, placed, inputs)):
         if inp is None:
             continue
         pm, pi, diags = inp
-        for j, ov in enumerate(override_sets(rng, diags)):
+        # planted programs draw their override sets from the PLANTED diagnostics
+        src_diags = c.diags if c.planted else diags
+        for j, ov in enumerate(override_sets(rng, src_diags)):
             od = write_overrides(d, j, ov)
+            ovsets[(i, j)] = ov
             for (jf, v) in FLAGS:
-                jobs.append((od, d, jf, v))
+                jobs.append((od, d, incs, jf, v))
                 meta.append((i, j, ov, jf, v))
     with concurrent.futures.ThreadPoolExecutor(max_workers=12) as ex:
         results = list(ex.map(run_falco, jobs))
 
-    # ---------------- model
+    # ---------------- model (input: what the Go API reported)
     mreq = []
     for (i, j, ov, jf, v) in meta:
         pm, pi, diags = inputs[i]
@@ -236,53 +301,72 @@ def run(ctx):
     groups = {}
     flagstat = {}
     for (i, j, ov, jf, v), res, mr in zip(meta, results, mrep):
-        label, main, mods = cases[i]
+        c = cases[i]
         pm, pi, diags = inputs[i]
-        replay = {"label": label, "main": main, "modules": mods, "overrides": ov, "flags": {"json": jf, "verbosity": v},
+        replay = {"label": c.label, "main": c.main, "local_modules": c.local, "include_dirs": c.dirs, "overrides": ov,
+                  "flags": {"json": jf, "verbosity": v},
                   "lint_input": {"parse_error_main": pm, "parse_error_included": pi, "diags": diags},
                   "process": {k: res.get(k) for k in ("exit", "summary", "doc", "listed", "shown", "stderr_tail")}, "model": mr}
-        size = len(main)
+        size = len(c.main)
         if res.get("hang") or res.get("panic"):
-            viol.append((size, "falco lint %s on %s" % ("hangs" if res.get("hang") else "panics", label), replay, None))
+            viol.append((size, "falco lint %s on %s" % ("hangs" if res.get("hang") else "panics", c.label), replay, None))
             continue
         got = "exit=%d summary=%s doc=%s listed=%s shown=%s" % (res["exit"], res["summary"], res["doc"], res["listed"], res["shown"])
         if mr != got:
             viol.append((size, "the falco process and Model/Verdict.v disagree (%s, json=%d, verbosity=%d, overrides=%s): process %s | model %s"
-                         % (label, jf, v, ov, got, mr), replay, None))
+                         % (c.label, jf, v, ov, got, mr), replay, None))
         else:
             agree += 1
         groups.setdefault((i, j), []).append((jf, v, res))
         flagstat[(jf, v)] = flagstat.get((jf, v), 0) + 1
 
     # ---------------- direct oracles on the implementation
-    flag_groups_ok = exit_ok = 0
+    flag_groups_ok = exit_ok = planted_verdict_ok = planted_verdict_n = doc_listed_ok = 0
     for (i, j), lst in groups.items():
-        label, main, mods = cases[i]
+        c = cases[i]
         pm, pi, diags = inputs[i]
-        ov = next(m[2] for m in meta if m[0] == i and m[1] == j)
+        ov = ovsets[(i, j)]
         exits = sorted({r["exit"] for _, _, r in lst})
         sums = sorted({r["summary"] for _, _, r in lst})
         docs = sorted({r["doc"].rsplit(",", 1)[0] for jf, _, r in lst if jf and r["doc"] not in ("none", "unparsable")})
-        replay = {"label": label, "main": main, "modules": mods, "overrides": ov,
-                  "by_flags": [{"json": jf, "verbosity": v, "exit": r["exit"], "summary": r["summary"], "doc": r["doc"]} for jf, v, r in lst]}
+        replay = {"label": c.label, "main": c.main, "local_modules": c.local, "include_dirs": c.dirs, "overrides": ov,
+                  "by_flags": [{"json": jf, "verbosity": v, "exit": r["exit"], "summary": r["summary"], "doc": r["doc"], "listed": r["listed"]}
+                               for jf, v, r in lst]}
+        # (1) flag independence
         if len(exits) > 1 or len(sums) > 1 or (docs and sums != ["none"] and docs != sums):
-            viol.append((len(main), "exit status / counts of `falco lint` depend on -json / -v / -vv for %s (overrides %s): exits %s, summaries %s, -json document counts %s"
-                         % (label, ov, exits, sums, docs), replay, None))
+            viol.append((len(c.main), "exit status / counts of `falco lint` depend on -json / -v / -vv for %s (overrides %s): exits %s, summaries %s, -json document counts %s"
+                         % (c.label, ov, exits, sums, docs), replay, None))
         else:
             flag_groups_ok += 1
-        ovm = {}
-        for k, w in ov:
-            lv = parse_level(w)
-            if lv:
-                ovm[k] = lv
-        want = 1 if (pm or pi or any(ovm.get(r, s) == "E" for r, s in diags)) else 0
-        bad = [(jf, v, r["exit"]) for jf, v, r in lst if (1 if r["exit"] != 0 else 0) != want]
+        # (2) the -json document agrees with itself: its entries counted by severity = its counts
+        badl = [(v, r["doc"], r["listed"]) for jf, v, r in lst
+                if jf and r["doc"] not in ("none", "unparsable") and r["listed"] != "none"
+                and r["listed"].rsplit(",", 1)[0] != r["doc"].rsplit(",", 1)[0]]
+        if badl:
+            viol.append((len(c.main), "the -json document contradicts itself for %s (overrides %s): (verbosity, Errors/Warnings/Infos/ParseErrors, entries by severity E,W,I,ignored) = %s"
+                         % (c.label, ov, badl[:3]), replay, None))
+        else:
+            doc_listed_ok += 1
+        # (3) the exit rule, from the API input
+        want_exit, _ = spec_verdict(pm, pi, diags, ov)
+        bad = [(jf, v, r["exit"]) for jf, v, r in lst if (1 if r["exit"] != 0 else 0) != want_exit]
         if bad:
-            viol.append((len(main), "exit status of `falco lint` is wrong for %s (overrides %s): syntax error main=%s included=%s, "
-                         "diagnostics with effective severity ERROR: %d, but (json, verbosity, exit) = %s"
-                         % (label, ov, pm, pi, sum(1 for r, s in diags if ovm.get(r, s) == "E"), bad[:6]), replay, None))
+            viol.append((len(c.main), "exit status of `falco lint` is wrong for %s (overrides %s): syntax error main=%s included=%s, "
+                         "exit expected %d, but (json, verbosity, exit) = %s" % (c.label, ov, pm, pi, want_exit, bad[:6]), replay, None))
         else:
             exit_ok += 1
+        # (4) planted programs: exit status AND counts from the planted truth alone (no linter, no model)
+        if c.planted:
+            planted_verdict_n += 1
+            we, ws = spec_verdict(c.pm, c.pi, c.diags, ov)
+            badp = [(jf, v, r["exit"], r["summary"]) for jf, v, r in lst if (1 if r["exit"] != 0 else 0) != we or r["summary"] != ws]
+            if badp:
+                viol.append((len(c.main), "verdict of `falco lint` differs from the planted one for %s (overrides %s): planted syntax error main=%s included=%s, "
+                             "surviving diagnostics %s => exit %d, counts %s; but (json, verbosity, exit, counts) = %s"
+                             % (c.label, ov, c.pm, c.pi, sorted(c.diags), we, ws, badp[:6]),
+                             dict(replay, planted={"pm": c.pm, "pi": c.pi, "diags": c.diags}), None))
+            else:
+                planted_verdict_ok += 1
 
     viol.sort(key=lambda x: x[0])
     seen = {}
@@ -294,17 +378,21 @@ def run(ctx):
     if not proved and not ctx.violations:
         ctx.violation("proof obligation of C04 no longer checks: " + (ctx.broken or "Props/C04.v"),
                       {"no_failing_input": True, "broken": ctx.broken,
-                       "searched": "%d process runs: the process, the model and both oracles agree on all of them" % len(jobs)})
-    ctx.samples = [{"label": cases[m[0]][0], "main": cases[m[0]][1][:300], "overrides": m[2], "json": m[3], "verbosity": m[4],
+                       "searched": "%d process runs: the process, the model and the oracles agree on all of them" % len(jobs)})
+    ctx.samples = [{"label": cases[m[0]].label, "main": cases[m[0]].main[:400], "overrides": m[2], "json": m[3], "verbosity": m[4],
                     "process": {k: r.get(k) for k in ("exit", "summary", "doc", "shown")}}
                    for m, r in list(zip(meta, results))[:: max(1, len(meta) // 4)][:4]]
     ctx.coverage.update({
-        "evaluations": len(jobs), "distinct_nontrivial": len({(m[0], m[1]) for m in meta}),
+        "evaluations": len(jobs), "distinct_nontrivial": len(groups),
         "programs": len(cases), "program_classes": dict(sorted(classes.items())),
         "process_runs": len(jobs), "process_model_agree": agree,
         "flag_matrix_per_program_and_override_set": ["json=%d verbosity=%d: %d runs" % (k[0], k[1], n) for k, n in sorted(flagstat.items())],
+        "planted_programs": planted_audited, "planted_linter_input_agrees": planted_agree,
+        "planted_features": dict(sorted(tagstat.items())),
+        "planted_verdict_groups": planted_verdict_n, "planted_verdict_groups_ok": planted_verdict_ok,
         "included_syntax_error_oracle_checked": inc_indep_checked,
         "override_sets": len(groups), "flag_independence_groups_ok": flag_groups_ok, "exit_oracle_groups_ok": exit_ok,
+        "json_document_self_consistent_groups_ok": doc_listed_ok,
         "exit_nonzero_runs": sum(1 for r in results if r.get("exit")), "exit_zero_runs": sum(1 for r in results if r.get("exit") == 0),
         "violations_by_category": seen,
     })
@@ -312,6 +400,6 @@ def run(ctx):
     return ctx.finish(
         level="proof",
         rule="theorems of coq/Props/C04.v over Model/Verdict.v (every configuration, every lint_input); correspondence: hand-written seeds of "
-             "every program class + seeded generated programs (subroutine programs with includes, mostly-clean programs, snippets with and "
-             "without @scope, damaged programs) x 3 override sets x the complete flag matrix, each cell a real process run "
+             "every program class + seeded generated programs + planted programs (diagnostics, ignore comments, include graphs and syntax errors "
+             "known by construction) x 3 override sets x the complete flag matrix, each cell a real process run "
              "(distinct = distinct (program, override set))")
